@@ -72,9 +72,14 @@ fn explode_function(
     name_prefix: String,
 ) -> FnUpdate {
     if regulators.is_empty() {
-        let parameter = network.find_parameter(name_prefix.as_str());
+        // the synthetic name must not collide with a network variable (e.g. `a_1`)
+        let mut name = name_prefix;
+        while network.as_graph().find_variable(name.as_str()).is_some() {
+            name.push('_');
+        }
+        let parameter = network.find_parameter(name.as_str());
         let parameter =
-            parameter.unwrap_or_else(|| network.add_parameter(name_prefix.as_str(), 0).unwrap());
+            parameter.unwrap_or_else(|| network.add_parameter(name.as_str(), 0).unwrap());
         FnUpdate::Param(parameter, Vec::new())
     } else {
         let regulator = regulators[0].clone();
